@@ -19,7 +19,7 @@ func TestKnownPairs(t *testing.T) {
 		{`a|b|c`, `[a-c]`, Equal, ""},
 		{`(?i)abc`, `(?i)ABC`, Equal, ""},
 		{`(?i)k`, `[kK\x{212a}]`, Equal, ""},
-		{`^a$`, `\Aa\z`, Equal, ""}, // Go: $ without m is end of text
+		{`^a$`, `\Aa\z`, Equal, ""},   // Go: $ without m is end of text
 		{`\bfoo\b`, `foo`, Equal, ""}, // full match: boundaries at text ends hold for word chars
 		{`a\b-`, `a-`, Equal, ""},
 		{`a\B-`, `a-`, Different, "a-"},
